@@ -1,5 +1,6 @@
 import SJ.Drv.Mach
 import SJ.Spec.Canon
+import SJ.Spec.Pos
 namespace SJ.Drv.C01
 open SJ SJ.Drv SJ.Drv.Mach SJ.Model.Machine
 
@@ -29,6 +30,51 @@ def judgeIgnored (srcName : String) (bs : Bytes) (impl : String) : Option String
     else if impl == "PANIC" then some s!"C14 {srcName}: panic"
     else some s!"C19 {srcName}: skipped content rejected although in the grammar ({impl})"
 
+/-- messages of errors that are not grammar violations (side conditions of C01) -/
+def sideConditionMsgs : List Gen.Code :=
+  [.LoneLeadingSurrogateInHexEscape, .UnexpectedEndOfHexEscape, .InvalidUnicodeCodePoint, .NumberOutOfRange,
+   .RecursionLimitExceeded]
+
+def isSideMsg (hexMsg : String) : Bool := sideConditionMsgs.any fun c => hexOfBytes (Gen.message c) == hexMsg
+
+/-- all `k ≤ len` with `lineCol bs k = (l, c)` -/
+def idxOfLineCol (bs : Bytes) (l c : Nat) : List Nat :=
+  (List.range (bs.length + 1)).filter fun k => lineCol bs k == (l, c)
+
+/-- C11 on one source's outcome -/
+def judgePos (srcName : String) (bs : Bytes) (o : String) : Option String :=
+  match o.splitOn ":" with
+  | ["E", msg, cat, ls, cs] =>
+    match ls.toNat?, cs.toNat? with
+    | some l, some c =>
+      let ks := idxOfLineCol bs l c
+      if ks.isEmpty then some s!"C11 {srcName}: reported position {l}:{c} does not lie within the input"
+      else if cat == "eof" then
+        if lineCol bs bs.length == (l, c) then none
+        else some s!"C11 {srcName}: Eof error at {l}:{c}, not at the end of input"
+      else if isSideMsg msg then none
+      else
+        match Spec.Pos.verdict bs with
+        | .dead d info =>
+          let lo := d + 1
+          let hi := match info with
+            | none => d + 1
+            | some i => min bs.length (max (Spec.Pos.literalEnd bs i.start) i.hexEnd)
+          if ks.any (fun k => lo ≤ k && k ≤ max lo hi) then none
+          else
+            let (el, ec) := lineCol bs lo
+            some s!"C11 {srcName}: reported {l}:{c} but the first offending byte is at {el}:{ec} (byte {d})"
+        | .json => some s!"C11 {srcName}: syntax error {l}:{c} reported for a JSON text"
+        | .prefix => some s!"C11 {srcName}: syntax error {l}:{c} reported although the input is a prefix of a JSON text"
+    | _, _ => some "C11 malformed position"
+  | _ => none
+
+def judgeSources (fields : List String) : Option String :=
+  let fs := fields.filter (· != "-")
+  match fs with
+  | [] => none
+  | f :: r => if r.all (· == f) then none else some s!"C09 sources disagree: {String.intercalate " | " fields}"
+
 def firstSome : List (Option String) → Option String
   | [] => none
   | some x :: _ => some x
@@ -41,15 +87,39 @@ def parseAll (tgt : Tgt) : Handler := fun args impl =>
     match bytesOfHex h with
     | some bs =>
       let cfg := cfgOfTag c
-      let spec := match impl.splitOn "|" with
+      let specs := match impl.splitOn "|" with
         | [s, sl, rd] =>
+          let pos := [judgePos "str" bs s, judgePos "slice" bs sl, judgePos "reader" bs rd, judgeSources [s, sl, rd]]
           if tgt = .value then
-            firstSome [judgeValue cfg "str" false bs s, judgeValue cfg "slice" true bs sl, judgeValue cfg "reader" true bs rd]
-          else firstSome [judgeIgnored "str" bs s, judgeIgnored "slice" bs sl, judgeIgnored "reader" bs rd]
-        | _ => some "malformed observation"
-      { model := runAll cfg tgt bs, spec := spec }
+            ([judgeValue cfg "str" false bs s, judgeValue cfg "slice" true bs sl, judgeValue cfg "reader" true bs rd] ++ pos).filterMap id
+          else ([judgeIgnored "str" bs s, judgeIgnored "slice" bs sl, judgeIgnored "reader" bs rd] ++ pos).filterMap id
+        | _ => ["malformed observation"]
+      { model := runAll cfg tgt bs, specs := specs }
     | none => bad "hex"
   | _ => bad "arity"
 
-def handlers : List (String × Handler) := [("pv", parseAll .value), ("pi", parseAll .ignored)]
+/-- `big <cfg> <name>`: pathological sizes; expected classes follow from the statement (depth limit,
+    number range, truncation) — the model is not run on megabyte inputs -/
+def bigExpected (cfg : Cfg) (name : String) : String :=
+  let v := match name with
+    | "deep-array-open" | "deep-array-balanced" | "deep-object-open" => "err:syntax"     -- recursion limit at level 128
+    | "long-string" | "long-escapes" | "wide-array" => "ok"
+    | "long-integer" => if cfg.ap then "ok" else "err:syntax"                         -- 1e1000000 is out of range
+    | "long-fraction" => "ok"
+    | "huge-exponent" => if cfg.ap then "ok" else "err:syntax"
+    | "huge-neg-exponent" => "ok"
+    | _ => "?"
+  let i := match name with
+    | "deep-array-open" => "err:eof" | "deep-object-open" => "err:eof"
+    | _ => "ok"
+  v ++ "|" ++ i ++ "|" ++ v
+
+def big : Handler := fun args impl =>
+  match args with
+  | [c, name] =>
+    let e := bigExpected (cfgOfTag c) name
+    { model := e, specs := (if (impl.splitOn "PANIC").length > 1 then ["C14 panic on a pathological input"] else []) }
+  | _ => bad "arity"
+
+def handlers : List (String × Handler) := [("pv", parseAll .value), ("pi", parseAll .ignored), ("big", big)]
 end SJ.Drv.C01
